@@ -157,6 +157,8 @@ impl Search {
             self.log_uci_info(depth, Some(start.elapsed().as_millis()), &pv);
         }
 
+        // Mark the search as finished before reporting, so that a go sent in reply is not refused
+        self.stop();
         self.log(format!("bestmove {}", self.info.best_move.unwrap()).as_str());
     }
 
